@@ -130,98 +130,101 @@ def run_dag(ctx, n, tiny):
     import flowpaths as fp
     stream = "mpe-tiny" if tiny else "mpe"
     for i in range(n):
-        rng = ctx.rng(stream, i)
-        args, info = gen2.rand_err_args(rng, "mpe", tiny=tiny, force_int=True if tiny else None, nmax=None if tiny else rng.choice([3, 4, 5]))
-        exact = args["weight_type"] == int
-        base = dict(args, solver_options=dict(errlib.SOLVER))
-        given = args.get("solution_weights_superset")
-        # the model's own covering number (k=None)
-        try:
-            m0 = fp.kMinPathError(**errlib.clean_args(dict(base, k=None)))
-        except (ValueError, OverflowError) as e:
-            ctx.dist("ctor " + type(e).__name__); continue
-        width = m0.original_k
-        if width > 4 or (tiny and width > 3):
-            ctx.dist("skipped: width > cap"); continue
-        edge_mode = args.get("flow_attr_origin", "edge") == "edge"
-        el = paths = None
-        if edge_mode:
-            el = errlib.elements_edge(args)
-            paths = errlib.st_paths(args["G"], args.get("additional_starts", ()), args.get("additional_ends", ()))
-            if len(paths) <= 40 and len(el) <= 10:
-                mc = errlib.min_cover(paths, el)
-                if mc is not None:
-                    if mc != width:
-                        ctx.report(f"kMinPathError(k=None) chose k={width}, but {mc} source-to-sink paths are needed to cover the non-ignored edges",
-                                   {"class": "kMinPathError", "args": errlib.describe(dict(base, k=None)), "k_chosen": width, "covering_number": mc})
-                    else:
-                        ctx.count("E2_width", "k_none_equals_covering_number")
-        kchoice = rng.choice(["none", "w", "w", "w+1", "below"])
-        k = {"none": None, "w": width, "w+1": width + 1, "below": max(1, width - 1)}[kchoice]
-        if tiny and k is not None and k > 3:
-            k = width
-        if given is not None and len(given) < width:
-            # given weights: the number of layers is len(given); make it a cover-capable instance half of the time
-            if rng.random() < 0.6:
-                conv = int if exact else float
-                given = list(given) + [conv(rng.choice([1, 2, 3])) for _ in range(width - len(given))]
-                args["solution_weights_superset"] = given; base["solution_weights_superset"] = given
-        a = dict(base, k=k)
-        lpdump.reset()
-        try:
-            m = fp.kMinPathError(**errlib.clean_args(a))
-        except (ValueError, OverflowError) as e:
-            ctx.dist("ctor " + type(e).__name__); continue
-        c07.option_hist(ctx, a); ctx.dist("k:" + kchoice)
-        impl, d = e1_case(ctx, m, a)
-        try:
-            m.solve()
-        except Exception as e:
-            ctx.report("kMinPathError.solve() raised " + repr(e), {"class": "kMinPathError", "args": errlib.describe(a)}); continue
-        status = m.solver.get_model_status()
-        cons = a.get("subpath_constraints")
-        fs = [F(c) for c in (a.get("path_length_factors") or [])]
-        k_eff = m.k if given is None else min(m.k, m.original_k)
-        so = None
-        if m.is_solved():
-            ctx.count("E2_mpe", "solved")
-            so = check_solution(ctx, "kMinPathError", a, m, exact)
-        else:
-            ctx.count("E2_mpe", "unsolved:" + str(status))
-            if status == "kInfeasible" and k_eff >= width and not cons:
-                rep = {"class": "kMinPathError", "args": errlib.describe(a), "status": status, "width": width}
-                key = None
-                if fs and max(fs) > 1:
-                    key = K_GT1
-                elif fs and min(fs) < 1:
-                    key = K_LT1
-                errlib.report(ctx, f"kMinPathError is infeasible although k={k_eff} >= covering number {width} (no subpath constraints)", rep,
-                              "kMinPathError", a, m, key=key)
-        # exhaustive optimum (edge origin, integer data, no constraints, no given weights)
-        if tiny and edge_mode and not cons and given is None and exact and not a.get("length_attr") and status in ("kOptimal", "kInfeasible") \
-                and m.k <= 3 and len(paths) <= 14:
-            fo = (lambda p: factor_of_length(a, len(p) + 1)) if fs else None
-            best, searched = errlib.brute_mpe(a, m.k, paths, el, factor_of=fo)
-            if not searched:
-                ctx.count("E2_exhaustive_optimum", "skipped_too_large")
+        def _one(cur):
+            rng = ctx.rng(stream, i)
+            args, info = gen2.rand_err_args(rng, "mpe", tiny=tiny, force_int=True if tiny else None, nmax=None if tiny else rng.choice([3, 4, 5]))
+            exact = args["weight_type"] == int
+            base = dict(args, solver_options=dict(errlib.SOLVER))
+            given = args.get("solution_weights_superset")
+            # the model's own covering number (k=None)
+            try:
+                m0 = fp.kMinPathError(**errlib.clean_args(dict(base, k=None)))
+            except (ValueError, OverflowError) as e:
+                ctx.dist("ctor " + type(e).__name__); return
+            width = m0.original_k
+            if width > 4 or (tiny and width > 3):
+                ctx.dist("skipped: width > cap"); return
+            edge_mode = args.get("flow_attr_origin", "edge") == "edge"
+            el = paths = None
+            if edge_mode:
+                el = errlib.elements_edge(args)
+                paths = errlib.st_paths(args["G"], args.get("additional_starts", ()), args.get("additional_ends", ()))
+                if len(paths) <= 40 and len(el) <= 10:
+                    mc = errlib.min_cover(paths, el)
+                    if mc is not None:
+                        if mc != width:
+                            ctx.report(f"kMinPathError(k=None) chose k={width}, but {mc} source-to-sink paths are needed to cover the non-ignored edges",
+                                       {"class": "kMinPathError", "args": errlib.describe(dict(base, k=None)), "k_chosen": width, "covering_number": mc})
+                        else:
+                            ctx.count("E2_width", "k_none_equals_covering_number")
+            kchoice = rng.choice(["none", "w", "w", "w+1", "below"])
+            k = {"none": None, "w": width, "w+1": width + 1, "below": max(1, width - 1)}[kchoice]
+            if tiny and k is not None and k > 3:
+                k = width
+            if given is not None and len(given) < width:
+                # given weights: the number of layers is len(given); make it a cover-capable instance half of the time
+                if rng.random() < 0.6:
+                    conv = int if exact else float
+                    given = list(given) + [conv(rng.choice([1, 2, 3])) for _ in range(width - len(given))]
+                    args["solution_weights_superset"] = given; base["solution_weights_superset"] = given
+            a = dict(base, k=k)
+            cur["args"] = a
+            lpdump.reset()
+            try:
+                m = fp.kMinPathError(**errlib.clean_args(a))
+            except (ValueError, OverflowError) as e:
+                ctx.dist("ctor " + type(e).__name__); return
+            c07.option_hist(ctx, a); ctx.dist("k:" + kchoice)
+            impl, d = e1_case(ctx, m, a)
+            try:
+                m.solve()
+            except Exception as e:
+                ctx.report("kMinPathError.solve() raised " + repr(e), {"class": "kMinPathError", "args": errlib.describe(a)}); return
+            status = m.solver.get_model_status()
+            cons = a.get("subpath_constraints")
+            fs = [F(c) for c in (a.get("path_length_factors") or [])]
+            k_eff = m.k if given is None else min(m.k, m.original_k)
+            so = None
+            if m.is_solved():
+                ctx.count("E2_mpe", "solved")
+                so = check_solution(ctx, "kMinPathError", a, m, exact)
             else:
-                impl_val = so if m.is_solved() else None
-                same = (best is None and impl_val is None) or (best is not None and impl_val is not None and abs(float(best) - impl_val) <= 1e-6)
-                if same:
-                    ctx.count("E2_exhaustive_optimum", "agreements")
-                else:
-                    rep = {"class": "kMinPathError", "args": errlib.describe(a), "solver_objective": impl_val, "exhaustive_optimum": None if best is None else str(best)}
+                ctx.count("E2_mpe", "unsolved:" + str(status))
+                if status == "kInfeasible" and k_eff >= width and not cons:
+                    rep = {"class": "kMinPathError", "args": errlib.describe(a), "status": status, "width": width}
                     key = None
-                    if fs:
-                        # does the faithful model (the code's bounds on slack / scaled slack) reproduce the answer?
-                        fb, _ = errlib.brute_mpe(a, m.k, paths, el, factor_of=fo, faithful=faithful_bounds(a, m))
-                        reproduces = (fb is None and impl_val is None) or \
-                                     (fb is not None and impl_val is not None and abs(float(fb) - impl_val) <= 1e-6)
-                        if reproduces:
-                            key = K_GT1 if max(fs) > 1 else (K_LT1 if min(fs) < 1 else None)
-                    errlib.report(ctx, f"kMinPathError objective {impl_val} differs from the exhaustive optimum {best} (k={m.k})", rep, "kMinPathError", a, m, key=key)
-        ctx.case(["mpe", tiny, errlib.describe(a)], nontrivial=len(impl["rows"]) > 12,
-                 sample={"edges": errlib.describe(a)["edges"], "k": k, "options": {o: str(v) for o, v in a.items() if o not in ("G", "solver_options", "k")}})
+                    if fs and max(fs) > 1:
+                        key = K_GT1
+                    elif fs and min(fs) < 1:
+                        key = K_LT1
+                    errlib.report(ctx, f"kMinPathError is infeasible although k={k_eff} >= covering number {width} (no subpath constraints)", rep,
+                                  "kMinPathError", a, m, key=key)
+            # exhaustive optimum (edge origin, integer data, no constraints, no given weights)
+            if tiny and edge_mode and not cons and given is None and exact and not a.get("length_attr") and status in ("kOptimal", "kInfeasible") \
+                    and m.k <= 3 and len(paths) <= 14:
+                fo = (lambda p: factor_of_length(a, len(p) + 1)) if fs else None
+                best, searched = errlib.brute_mpe(a, m.k, paths, el, factor_of=fo)
+                if not searched:
+                    ctx.count("E2_exhaustive_optimum", "skipped_too_large")
+                else:
+                    impl_val = so if m.is_solved() else None
+                    same = (best is None and impl_val is None) or (best is not None and impl_val is not None and abs(float(best) - impl_val) <= 1e-6)
+                    if same:
+                        ctx.count("E2_exhaustive_optimum", "agreements")
+                    else:
+                        rep = {"class": "kMinPathError", "args": errlib.describe(a), "solver_objective": impl_val, "exhaustive_optimum": None if best is None else str(best)}
+                        key = None
+                        if fs:
+                            # does the faithful model (the code's bounds on slack / scaled slack) reproduce the answer?
+                            fb, _ = errlib.brute_mpe(a, m.k, paths, el, factor_of=fo, faithful=faithful_bounds(a, m))
+                            reproduces = (fb is None and impl_val is None) or \
+                                         (fb is not None and impl_val is not None and abs(float(fb) - impl_val) <= 1e-6)
+                            if reproduces:
+                                key = K_GT1 if max(fs) > 1 else (K_LT1 if min(fs) < 1 else None)
+                        errlib.report(ctx, f"kMinPathError objective {impl_val} differs from the exhaustive optimum {best} (k={m.k})", rep, "kMinPathError", a, m, key=key)
+            ctx.case(["mpe", tiny, errlib.describe(a)], nontrivial=len(impl["rows"]) > 12,
+                     sample={"edges": errlib.describe(a)["edges"], "k": k, "options": {o: str(v) for o, v in a.items() if o not in ("G", "solver_options", "k")}})
+        errlib.guarded(ctx, 'kMinPathError', f"{stream}#{i}", _one)
 
 
 def scaled_copy(args, c):
@@ -236,36 +239,39 @@ def scaled_copy(args, c):
 def run_cyclic(ctx, n):
     import flowpaths as fp
     for i in range(n):
-        rng = ctx.rng("mpe-cyc", i)
-        args, is_int = c07.rand_cyclic_err(rng)
-        base = dict(args, solver_options=dict(errlib.SOLVER))
-        try:
-            m0 = fp.kMinPathErrorCycles(**errlib.clean_args(dict(base, k=None)))
-        except (ValueError, OverflowError) as e:
-            ctx.dist("cyc ctor " + type(e).__name__); continue
-        width = m0.k
-        if width > 3:
-            ctx.dist("cyc skipped: width > 3"); continue
-        k = rng.choice([None, width, width + 1])
-        a = dict(base, k=k)
-        try:
-            m = fp.kMinPathErrorCycles(**errlib.clean_args(a)); m.solve()
-        except Exception as e:
-            ctx.report("kMinPathErrorCycles raised " + repr(e), {"class": "kMinPathErrorCycles", "args": errlib.describe(a)}); continue
-        c07.option_hist(ctx, a)
-        if m.is_solved():
-            ctx.count("E2_mpe_cycles", "solved")
-            check_solution(ctx, "kMinPathErrorCycles", a, m, is_int, eng="E2_mpe_cycles")
-        else:
-            st = m.solver.get_model_status()
-            ctx.count("E2_mpe_cycles", "unsolved:" + str(st))
-            if st == "kInfeasible":
-                why = errlib.solver_disagrees("kMinPathErrorCycles", a, m)
-                if why:
-                    ctx.count("solver_specification", "highs_answers_depend_on_presolve")     # solver defect (DESIGN 10.4), not reported
-                else:
-                    cyclic_infeasible(ctx, "kMinPathErrorCycles", a, width, m.k)
-        ctx.case(["mpe-cyc", errlib.describe(a)], nontrivial=c07.G_has_cycle(a["G"]))
+        def _one(cur):
+            rng = ctx.rng("mpe-cyc", i)
+            args, is_int = c07.rand_cyclic_err(rng)
+            base = dict(args, solver_options=dict(errlib.SOLVER))
+            try:
+                m0 = fp.kMinPathErrorCycles(**errlib.clean_args(dict(base, k=None)))
+            except (ValueError, OverflowError) as e:
+                ctx.dist("cyc ctor " + type(e).__name__); return
+            width = m0.k
+            if width > 3:
+                ctx.dist("cyc skipped: width > 3"); return
+            k = rng.choice([None, width, width + 1])
+            a = dict(base, k=k)
+            cur["args"] = a
+            try:
+                m = fp.kMinPathErrorCycles(**errlib.clean_args(a)); m.solve()
+            except Exception as e:
+                ctx.report("kMinPathErrorCycles raised " + repr(e), {"class": "kMinPathErrorCycles", "args": errlib.describe(a)}); return
+            c07.option_hist(ctx, a)
+            if m.is_solved():
+                ctx.count("E2_mpe_cycles", "solved")
+                check_solution(ctx, "kMinPathErrorCycles", a, m, is_int, eng="E2_mpe_cycles")
+            else:
+                st = m.solver.get_model_status()
+                ctx.count("E2_mpe_cycles", "unsolved:" + str(st))
+                if st == "kInfeasible":
+                    why = errlib.solver_disagrees("kMinPathErrorCycles", a, m)
+                    if why:
+                        ctx.count("solver_specification", "highs_answers_depend_on_presolve")     # solver defect (DESIGN 10.4), not reported
+                    else:
+                        cyclic_infeasible(ctx, "kMinPathErrorCycles", a, width, m.k)
+            ctx.case(["mpe-cyc", errlib.describe(a)], nontrivial=c07.G_has_cycle(a["G"]))
+        errlib.guarded(ctx, 'kMinPathErrorCycles', f"mpe-cyc#{i}", _one)
 
 
 def run_family(ctx):
@@ -274,32 +280,35 @@ def run_family(ctx):
     import flowpaths as fp
     for fam in errlib.cyclic_families():
         for k in fam["k_list"]:
-            args = dict(G=fam["G"], flow_attr="flow", k=k, weight_type=fam["weight_type"], solver_options=dict(errlib.SOLVER))
-            rep = {"class": "kMinPathErrorCycles", "family": fam["name"], "args": errlib.describe(args), "closed_form_optimum": str(fam["mpe_opt"])}
-            try:
-                m = fp.kMinPathErrorCycles(**errlib.clean_args(args)); m.solve()
-            except Exception as e:
-                ctx.report(f"kMinPathErrorCycles raised {e!r} on family instance {fam['name']}", rep); continue
-            ctx.case(["mpe-family", fam["name"], k], nontrivial=True)
-            if k is None and m.k != fam["width"]:
-                ctx.report(f"kMinPathErrorCycles(k=None) chose k={m.k} on '{fam['name']}', the covering number is {fam['width']}", rep); continue
-            st = m.solver.get_model_status()
-            if not m.is_solved():
-                if st == "kInfeasible":
-                    errlib.report(ctx, f"kMinPathErrorCycles is infeasible on '{fam['name']}' although k={m.k} >= covering number {fam['width']} "
-                                  f"and a solution within every repetition cap exists", rep, "kMinPathErrorCycles", args, m)
+            def _one(cur):
+                args = dict(G=fam["G"], flow_attr="flow", k=k, weight_type=fam["weight_type"], solver_options=dict(errlib.SOLVER))
+                cur["args"] = args
+                rep = {"class": "kMinPathErrorCycles", "family": fam["name"], "args": errlib.describe(args), "closed_form_optimum": str(fam["mpe_opt"])}
+                try:
+                    m = fp.kMinPathErrorCycles(**errlib.clean_args(args)); m.solve()
+                except Exception as e:
+                    ctx.report(f"kMinPathErrorCycles raised {e!r} on family instance {fam['name']}", rep); return
+                ctx.case(["mpe-family", fam["name"], k], nontrivial=True)
+                if k is None and m.k != fam["width"]:
+                    ctx.report(f"kMinPathErrorCycles(k=None) chose k={m.k} on '{fam['name']}', the covering number is {fam['width']}", rep); return
+                st = m.solver.get_model_status()
+                if not m.is_solved():
+                    if st == "kInfeasible":
+                        errlib.report(ctx, f"kMinPathErrorCycles is infeasible on '{fam['name']}' although k={m.k} >= covering number {fam['width']} "
+                                      f"and a solution within every repetition cap exists", rep, "kMinPathErrorCycles", args, m)
+                    else:
+                        ctx.count("E2_cyclic_family", "inconclusive:" + str(st))
+                    return
+                so = check_solution(ctx, "kMinPathErrorCycles", args, m, fam["weight_type"] == int, eng="E2_cyclic_family")
+                if so is None:
+                    return
+                if abs(so - float(fam["mpe_opt"])) > 1e-6:
+                    rep["solution"] = {x: y for x, y in m.get_solution().items() if not x.startswith("_")}
+                    errlib.report(ctx, f"kMinPathErrorCycles on '{fam['name']}' (k={m.k}) returns total slack {so}, the optimum is {fam['mpe_opt']}", rep,
+                                  "kMinPathErrorCycles", args, m)
                 else:
-                    ctx.count("E2_cyclic_family", "inconclusive:" + str(st))
-                continue
-            so = check_solution(ctx, "kMinPathErrorCycles", args, m, fam["weight_type"] == int, eng="E2_cyclic_family")
-            if so is None:
-                continue
-            if abs(so - float(fam["mpe_opt"])) > 1e-6:
-                rep["solution"] = {x: y for x, y in m.get_solution().items() if not x.startswith("_")}
-                errlib.report(ctx, f"kMinPathErrorCycles on '{fam['name']}' (k={m.k}) returns total slack {so}, the optimum is {fam['mpe_opt']}", rep,
-                              "kMinPathErrorCycles", args, m)
-            else:
-                ctx.count("E2_cyclic_family", "optimum_agrees")
+                    ctx.count("E2_cyclic_family", "optimum_agrees")
+            errlib.guarded(ctx, 'kMinPathErrorCycles', f"{fam['name']} k={k}", _one)
 
 
 def run_factor_family(ctx):
@@ -308,32 +317,35 @@ def run_factor_family(ctx):
     solved with objective 0, k=None must pick 3, and the returned solution must pass the full E2 recomputation"""
     import flowpaths as fp
     for fam in errlib.length_factor_family():
-        a = dict(fam["args"], solver_options=dict(errlib.SOLVER))
-        rep = {"class": "kMinPathError", "family": fam["name"], "args": errlib.describe(a), "closed_form_optimum": "0"}
-        try:
-            m = fp.kMinPathError(**errlib.clean_args(a)); m.solve()
-        except Exception as e:
-            ctx.report(f"kMinPathError raised {e!r} on family instance {fam['name']}", rep); continue
-        ctx.case(["mpe-length-factors", fam["name"]], nontrivial=True)
-        if a["k"] is None and m.k != fam["width"]:
-            ctx.report(f"kMinPathError(k=None) chose k={m.k} on '{fam['name']}', the covering number is {fam['width']}", rep); continue
-        st = m.solver.get_model_status()
-        if not m.is_solved():
-            if st == "kInfeasible":
-                errlib.report(ctx, f"kMinPathError is infeasible on '{fam['name']}' although k={m.k} >= covering number 3 and the three paths with "
-                                   f"their exact weights and slack 0 satisfy every row (length factors only select a constant per path)", rep,
-                              "kMinPathError", a, m)
+        def _one(cur):
+            a = dict(fam["args"], solver_options=dict(errlib.SOLVER))
+            cur["args"] = a
+            rep = {"class": "kMinPathError", "family": fam["name"], "args": errlib.describe(a), "closed_form_optimum": "0"}
+            try:
+                m = fp.kMinPathError(**errlib.clean_args(a)); m.solve()
+            except Exception as e:
+                ctx.report(f"kMinPathError raised {e!r} on family instance {fam['name']}", rep); return
+            ctx.case(["mpe-length-factors", fam["name"]], nontrivial=True)
+            if a["k"] is None and m.k != fam["width"]:
+                ctx.report(f"kMinPathError(k=None) chose k={m.k} on '{fam['name']}', the covering number is {fam['width']}", rep); return
+            st = m.solver.get_model_status()
+            if not m.is_solved():
+                if st == "kInfeasible":
+                    errlib.report(ctx, f"kMinPathError is infeasible on '{fam['name']}' although k={m.k} >= covering number 3 and the three paths with "
+                                       f"their exact weights and slack 0 satisfy every row (length factors only select a constant per path)", rep,
+                                  "kMinPathError", a, m)
+                else:
+                    ctx.count("E2_length_factor_family", "inconclusive:" + str(st))
+                return
+            so = check_solution(ctx, "kMinPathError", a, m, True, eng="E2_length_factor_family")
+            if so is None:
+                return
+            if abs(so) > 1e-6:
+                rep["solution"] = {x: y for x, y in m.get_solution().items() if not x.startswith("_")}
+                errlib.report(ctx, f"kMinPathError on '{fam['name']}' returns total slack {so}, the optimum is 0", rep, "kMinPathError", a, m)
             else:
-                ctx.count("E2_length_factor_family", "inconclusive:" + str(st))
-            continue
-        so = check_solution(ctx, "kMinPathError", a, m, True, eng="E2_length_factor_family")
-        if so is None:
-            continue
-        if abs(so) > 1e-6:
-            rep["solution"] = {x: y for x, y in m.get_solution().items() if not x.startswith("_")}
-            errlib.report(ctx, f"kMinPathError on '{fam['name']}' returns total slack {so}, the optimum is 0", rep, "kMinPathError", a, m)
-        else:
-            ctx.count("E2_length_factor_family", "optimum_agrees")
+                ctx.count("E2_length_factor_family", "optimum_agrees")
+        errlib.guarded(ctx, 'kMinPathError', fam["name"], _one)
 
 
 def cyclic_infeasible(ctx, cls, a, width, k_eff):
@@ -405,8 +417,8 @@ def run(ctx):
             wfun(ctx)
         except Exception as e:
             ctx.report(f"the recorded witness instances raised {e!r}", {"witness": "C08"})
-    run_dag(ctx, ctx.budget(170, 5000), tiny=False)
-    run_dag(ctx, ctx.budget(160, 5000), tiny=True)
+    run_dag(ctx, ctx.budget(130, 5000), tiny=False)
+    run_dag(ctx, ctx.budget(130, 5000), tiny=True)
     run_family(ctx)
     run_factor_family(ctx)
     run_cyclic(ctx, ctx.budget(50, 1500))
